@@ -18,6 +18,7 @@ class LoopSpec:
     modifies: tuple = ()                    # extra names to havoc
     types: dict = field(default_factory=dict)   # name -> type string for havoc of names not yet symbolic
     assume_in_body: tuple = ()
+    ghost_init: object = None               # callable(interp, env): ghost state set up when the loop is entered
 
 
 def parse_type(ts: str) -> Codec:
@@ -373,6 +374,12 @@ class VerifContext:
 
     def obj_getitem(self, interp, obj, idx):
         raise Unsupported(f"subscript of {obj.cls} not modelled")
+
+    def obj_hash(self, interp, obj):
+        raise Unsupported(f"hash of abstract {obj.cls} not modelled")
+
+    def obj_format(self, interp, obj, spec):
+        raise Unsupported(f"format of abstract {obj.cls} not modelled")
 
     def obj_equals(self, interp, a, b):
         raise Unsupported("== on abstract objects not modelled")
